@@ -5,8 +5,10 @@
   The block writer's flush rule at close.  Property theorems only.
 -/
 import SfModel.BlockFile
+import SfProofs.BlockWriter
+import SfProofs.BlockVox
 namespace Sf.C07Block
-open Sf Sf.Block
+open Sf Sf.Block Sf.Block.Proofs
 
 /-! ## XI DPCM: ∀ splits, the deltas of xs ++ ys are the deltas of xs followed by those of ys started from the
     state xs left -/
@@ -45,6 +47,24 @@ theorem vox_partition_pads :
     ((Oki.writeBlock 4 {} [256, 512, 768] 3).2.1 ++
       (Oki.writeBlock 2 (Oki.writeBlock 4 {} [256, 512, 768] 3).1 [1024] 1).2.1).length = 3 := by decide
 
+/-- what holds (the excluded class is exactly KF-VOX-ODD): when the first call has an even number of samples, two
+    calls produce the bytes, the count and the encoder state of one call with the concatenation — whatever the
+    512-sample pieces of `vox_write_block` are -/
+theorem vox_partition_partial (st : Oki.St) (xs ys : List Int) (hx : xs.length % 2 = 0) (hy : ys.length % 2 = 0) :
+    (Oki.writeBlock ((xs ++ ys).length + 1) st (xs ++ ys) (xs ++ ys).length).1 =
+      (Oki.writeBlock (ys.length + 1) (Oki.writeBlock (xs.length + 1) st xs xs.length).1 ys ys.length).1 ∧
+    (Oki.writeBlock ((xs ++ ys).length + 1) st (xs ++ ys) (xs ++ ys).length).2.1 =
+      (Oki.writeBlock (xs.length + 1) st xs xs.length).2.1 ++
+        (Oki.writeBlock (ys.length + 1) (Oki.writeBlock (xs.length + 1) st xs xs.length).1 ys ys.length).2.1 ∧
+    (Oki.writeBlock ((xs ++ ys).length + 1) st (xs ++ ys) (xs ++ ys).length).2.2 = xs.length + ys.length := by
+  rw [writeBlock_even _ st (xs ++ ys) (by rw [List.length_append]; omega) (Nat.lt_succ_self _),
+    writeBlock_even _ st xs hx (Nat.lt_succ_self _), writeBlock_even _ _ ys hy (Nat.lt_succ_self _),
+    encPairs_append xs st ys hx]
+  exact ⟨rfl, rfl, List.length_append⟩
+
+example : (Oki.writeBlock 5 {} ([256, 512] ++ [768, 1024]) 4).2.1 =
+    (Oki.writeBlock 3 {} [256, 512] 2).2.1 ++ (Oki.writeBlock 3 (Oki.writeBlock 3 {} [256, 512] 2).1 [768, 1024] 2).2.1 := by decide
+
 /-! ## the flush at close -/
 
 /-- close with nothing pending emits nothing; with `cnt` frames pending and `padZero` it encodes the pending
@@ -58,5 +78,117 @@ theorem block_writer_close (w : Writer σ) (st : WState σ) (pad : Bool) :
   · intro h; simp [Writer.close, h, Writer.emit]
 
 example : ((Sds.writer 3).close true ((Sds.writer 3).write ((Sds.writer 3).init 0) [65536])).out.length = 1 := by decide
+
+/-! ## the generic block writer: ∀ encodeBlock (cross-block state allowed), ∀ spb, ∀ channels, ∀ splits -/
+
+variable {σ : Type}
+
+/-- one inner call with whole frames is the fold of the per-frame step `pushFrame` (store the frame, count it,
+    encode + emit when the block is full) over its frames, and the invariant "buffer of block size, not full"
+    is kept -/
+theorem block_writer_is_fold (w : Writer σ) (wf : WWF w) (st : WState σ) (inv : WInv w st) (fs : List (List Int))
+    (hu : Uniform w.ch fs) :
+    w.write st fs.flatten = fs.foldl (pushFrame w) st ∧ WInv w (fs.foldl (pushFrame w) st) := write_fold w wf st fs inv hu
+
+/-- helper shape shared by the two partition theorems: a list of calls, each cut into staging pieces of `q`
+    frames (`q = 0`: one piece), is the fold over all frames -/
+theorem block_writer_calls_fold (w : Writer σ) (wf : WWF w) : ∀ (calls : List (Nat × List (List Int))) (st : WState σ),
+    WInv w st → (∀ c ∈ calls, Uniform w.ch c.2) →
+    calls.foldl (fun st c => wcall w (c.1 * w.ch) st c.2.flatten) st = (calls.flatMap (·.2)).foldl (pushFrame w) st ∧
+      WInv w ((calls.flatMap (·.2)).foldl (pushFrame w) st) := by
+  intro calls
+  induction calls with
+  | nil => intro st inv _; exact ⟨rfl, inv⟩
+  | cons c cs ih =>
+    intro st inv hu
+    have hc := hu c (by simp)
+    have h1 := writeChunked_fold w wf c.1 (c.2.flatten.length + 1) st c.2 inv hc
+      (by rw [uniform_flatten_length c.2 hc]; exact Nat.lt_succ_of_le (Nat.le_mul_of_pos_right _ wf.ch_pos))
+    have hcall : wcall w (c.1 * w.ch) st c.2.flatten = c.2.foldl (pushFrame w) st := by
+      unfold wcall
+      simp only
+      rw [← h1.1, uniform_flatten_length c.2 hc]
+    obtain ⟨h2, h3⟩ := ih (c.2.foldl (pushFrame w) st) h1.2 (fun d hd => hu d (by simp [hd]))
+    rw [List.foldl_cons, hcall, h2, List.flatMap_cons, List.foldl_append]
+    exact ⟨rfl, h3⟩
+
+/-- **block_writer_partition**: the state after any sequence of calls (hence the emitted bytes, and the bytes after
+    close) is the state after one call with the concatenated frames -/
+theorem block_writer_partition (w : Writer σ) (wf : WWF w) (st : WState σ) (inv : WInv w st) (calls : List (List (List Int)))
+    (hu : ∀ c ∈ calls, Uniform w.ch c) (pad : Bool) :
+    calls.foldl (fun st c => w.write st c.flatten) st = w.write st calls.flatten.flatten ∧
+    (w.close pad (calls.foldl (fun st c => w.write st c.flatten) st)).bytes = (w.close pad (w.write st calls.flatten.flatten)).bytes := by
+  have key : ∀ (cs : List (List (List Int))) (s : WState σ), WInv w s → (∀ c ∈ cs, Uniform w.ch c) →
+      cs.foldl (fun st c => w.write st c.flatten) s = cs.flatten.foldl (pushFrame w) s := by
+    intro cs
+    induction cs with
+    | nil => intro s _ _; rfl
+    | cons c cs ih =>
+      intro s hs hc
+      obtain ⟨h1, h2⟩ := write_fold w wf s c hs (hc c (by simp))
+      rw [List.foldl_cons, h1, ih _ h2 (fun d hd => hc d (by simp [hd])), List.flatten_cons, List.foldl_append]
+  have hu2 : Uniform w.ch calls.flatten := by
+    intro f hf
+    obtain ⟨c, hc, hfc⟩ := List.mem_flatten.mp hf
+    exact hu c hc f hfc
+  have e : calls.foldl (fun st c => w.write st c.flatten) st = w.write st calls.flatten.flatten := by
+    rw [key calls st inv hu, (write_fold w wf st calls.flatten inv hu2).1]
+  exact ⟨e, by rw [e]⟩
+
+/-- non-vacuity: a 2-frames-per-block, 2-channel writer whose encoder numbers its blocks (cross-block state) -/
+def toyW : Writer Nat := { spb := 2, ch := 2, enc := fun k b => (k + 1, k :: b.map Int.toNat) }
+example : ((toyW.close true ((([[[1, 2]], [[3, 4], [5, 6]]] : List (List (List Int))).foldl (fun st c => toyW.write st c.flatten) (toyW.init 0)))).bytes
+    = [0, 1, 2, 3, 4, 1, 5, 6, 0, 0]) ∧
+    (toyW.close true (toyW.write (toyW.init 0) [1, 2, 3, 4, 5, 6])).bytes = [0, 1, 2, 3, 4, 1, 5, 6, 0, 0] := by decide
+
+/-! ## PAF24 after the repair of KF-PAF24-CHUNK: staging pieces are whole frames -/
+
+theorem paf24_chunk_whole_frames (ch : Nat) (ty : Ty) : ∃ q, Paf24.chunkOf ch ty = q * ch := by
+  unfold Paf24.chunkOf
+  by_cases h : ty = .s32
+  · exact ⟨0, by simp [h]⟩
+  · refine ⟨2048 / ch, ?_⟩
+    rw [if_neg h]
+    have := Nat.div_add_mod 2048 ch
+    rw [Nat.mul_comm] at this
+    omega
+
+/-- the rule before the repair: 683 three-channel frames written by one short call were accounted as 682 (the
+    frame cut by the 2048-item piece is lost) … -/
+theorem paf24_chunk_old_rule :
+    (wcall (Paf24.writer 3 false) (Paf24.chunkOfOld .s16) ((Paf24.writer 3 false).init []) (List.replicate 2049 0)).nblk * 10 +
+    (wcall (Paf24.writer 3 false) (Paf24.chunkOfOld .s16) ((Paf24.writer 3 false).init []) (List.replicate 2049 0)).cnt = 682 := by
+  decide +kernel
+
+/-- … and with the current rule all 683 are -/
+theorem paf24_chunk_new_rule_witness :
+    (wcall (Paf24.writer 3 false) (Paf24.chunkOf 3 .s16) ((Paf24.writer 3 false).init []) (List.replicate 2049 0)).nblk * 10 +
+    (wcall (Paf24.writer 3 false) (Paf24.chunkOf 3 .s16) ((Paf24.writer 3 false).init []) (List.replicate 2049 0)).cnt = 683 := by
+  decide +kernel
+
+/-- **full strength, current rule**: for every channel count, byte order, every sequence of calls of any caller
+    types (each a whole number of frames, as sf_write_* enforces), the writer state — so the data region after
+    close — is the per-frame fold over the concatenated frames: it depends on the concatenation only -/
+theorem paf24_write_partition (ch : Nat) (hch : 0 < ch) (big : Bool) (calls : List (Ty × List (List Int)))
+    (hu : ∀ c ∈ calls, Uniform ch c.2) (st : WState (List Paf24.Spare)) (inv : WInv (Paf24.writer ch big) st) :
+    calls.foldl (fun st c => wcall (Paf24.writer ch big) (Paf24.chunkOf ch c.1) st c.2.flatten) st =
+      (calls.flatMap (·.2)).foldl (pushFrame (Paf24.writer ch big)) st := by
+  have wf : WWF (Paf24.writer ch big) := ⟨Nat.succ_pos 9, hch⟩
+  -- rewrite every call's chunk as q * ch
+  have hq : ∀ c : Ty × List (List Int), ∃ q, Paf24.chunkOf ch c.1 = q * (Paf24.writer ch big).ch := fun c => paf24_chunk_whole_frames ch c.1
+  let calls2 : List (Nat × List (List Int)) := calls.map fun c => ((hq c).choose, c.2)
+  have h := block_writer_calls_fold (Paf24.writer ch big) wf calls2 st inv (by
+    intro c hc
+    obtain ⟨d, hd, rfl⟩ := List.mem_map.mp hc
+    exact hu d hd)
+  have e1 : calls2.foldl (fun st c => wcall (Paf24.writer ch big) (c.1 * (Paf24.writer ch big).ch) st c.2.flatten) st =
+      calls.foldl (fun st c => wcall (Paf24.writer ch big) (Paf24.chunkOf ch c.1) st c.2.flatten) st := by
+    simp only [calls2, List.foldl_map]
+    congr 1
+    funext s c
+    rw [← (hq c).choose_spec]
+  have e2 : calls2.flatMap (·.2) = calls.flatMap (·.2) := by
+    simp only [calls2, List.flatMap_map]
+  rw [← e1, h.1, e2]
 
 end Sf.C07Block
